@@ -30,6 +30,9 @@ type Dispatch struct {
 	Seeks  map[string]*msgpb.MsgPosition
 	Closed map[string]bool
 	Events []string
+	// Gate, when set, is called at the start of every Register (the harness uses it to hold a registration: the real call
+	// creates a consumer on the message queue)
+	Gate func(v string)
 }
 
 func NewDispatch() *Dispatch {
@@ -37,6 +40,9 @@ func NewDispatch() *Dispatch {
 }
 
 func (f *Dispatch) Register(ctx context.Context, c *msgdispatcher.StreamConfig) (<-chan *msgstream.MsgPack, error) {
+	if g := f.Gate; g != nil {
+		g(c.VChannel)
+	}
 	f.mu.Lock()
 	defer f.mu.Unlock()
 	ch := make(chan *msgstream.MsgPack)
